@@ -253,3 +253,11 @@ package paymentsdb
 //@   site call removable: assert arg(ps) == retn(computePaymentStatusFromDB, 0) && retn(computePaymentStatusFromDB, 1) == nil
 //@   site call DeleteFailedAttempts: assert ret(removable) == nil && failedHtlcsOnly
 //@   site call DeletePayment: assert ret(removable) == nil && !failedHtlcsOnly
+//@
+//@ // ---- a stored route comes back with the amounts it was stored with (64-bit, no narrower conversion)
+//@ func dbDataToRoute
+//@   props C16
+//@   bounds-safe
+//@   loop * havoc
+//@   site store Hop.AmtToForward: assert value == wrap(hop.AmtToForward, 64)
+//@   site store Hop.OutgoingTimeLock: assert value == wrap(hop.OutgoingTimeLock, 32)
